@@ -59,9 +59,11 @@ def run_cvc5(smt2, tlimit_ms):
         os.unlink(path)
 
 
-def _check(ob, with_defs, timeout):
+def _check(ob, with_defs, timeout, seed=None):
     s = z3.Solver()
     s.set('timeout', timeout)
+    if seed is not None:
+        s.set('random_seed', seed)
     s.add(*ob.pc)
     if with_defs:
         s.add(*ob.defs)
@@ -92,6 +94,13 @@ def _solve(i):
             res.update(status='unsat', backend='cvc5', ms=int(1000 * (time.time() - t0)))
             return i, res
         # a cvc5 `sat` carries no model through this route: fall through to z3's bigger budget
+    if r == z3.unknown:
+        # nonlinear queries are sensitive to the search order: other seeds before the big budget
+        for seed in (7, 23, 101):
+            s, r = _check(ob, True, timeout, seed)
+            if r != z3.unknown:
+                res['backend'] = f'z3(seed {seed})'
+                break
     if r == z3.unknown:
         s, r = _check(ob, True, 4 * timeout)
         res['backend'] = 'z3(4x)'
